@@ -1,4 +1,105 @@
 import HC.Proto.H11
+import HC.Props.C06
+/-!
+# C05 — application failures are contained and never yield a falsely complete response
+
+`Http.appSend s none` / `Ws.appSend … none` is what `TaskGroup._handle` always does when the application returns or
+raises (`finally: await send(None)`).
+-/
 namespace HC.Props.C05
-theorem placeholder : (1 : Nat) = 1 := rfl
+open HC HC.Stream HC.Lib HC.Proto.H11 HC.Extracted.H11Tables
+
+/-- **no response started ⇒ exactly a complete 500**: head with `content-length: 0` and `connection: close`,
+    end-of-body, one access record, stream-closed -/
+theorem crash_before_start (s : Http.S) (hst : s.st = .request) (hc : s.closed = false) :
+    Http.appSend s none =
+      ({ s with st := .closed },
+       [.response 500 [("content-length".b, "0".b), ("connection".b, "close".b)], .endBody, .access (some 500), .streamClosed], none) := by
+  simp [Http.appSend, hst, hc]
+
+/-- **response started but not finished ⇒ stream-closed and nothing else**: in particular no end-of-body is ever
+    signalled for the aborted response -/
+theorem crash_after_start (s : Http.S) (hst : s.st = .response ∨ s.st = .trailers) (hc : s.closed = false) :
+    Http.appSend s none = (s, [.streamClosed], none) := by
+  rcases hst with h | h <;> simp [Http.appSend, h, hc]
+
+/-- finishing after the response completed (or after the stream was closed) does nothing -/
+theorem exit_after_completion (s : Http.S) (hc : s.closed = true) : Http.appSend s none = (s, [], none) := by
+  simp [Http.appSend, hc]
+
+/-- h11's writer reaches DONE only through `EndOfMessage` -/
+theorem server_done_only_by_eom (s s' : H11M.St) (k : EvKey) (h : H11M.stepServer s k = some s') (hk : k ≠ .eom)
+    (hs : s.server ≠ .done) (hka : s.keepAlive = true ∨ True) : s'.server = .done → False := by
+  intro hd
+  unfold H11M.stepServer at h
+  split at h
+  · cases h
+  · split at h
+    · cases h
+    · rename_i sv hsv
+      simp only [Option.some.injEq] at h
+      -- the table target of a non-eom server event is never DONE, and the state-triggered pass never produces DONE
+      have hsv' : sv ≠ .done := by
+        intro e; subst e
+        have key : ∀ st, H11M.lookupEvent .server st k = some .done → k = .eom := by
+          intro st; cases st <;> cases k <;> decide
+        exact hk (key _ hsv)
+      subst h
+      have hf : ∀ x : H11M.St, x.server ≠ .done → (H11M.fire x).server ≠ .done := by
+        intro x hx
+        have one : ∀ y : H11M.St, y.server ≠ .done → (H11M.fireOnce y).server ≠ .done := by
+          intro y hy
+          simp only [H11M.fireOnce]
+          have : ∀ (p ka : Bool) (c sv : HSt), sv ≠ .done → (H11M.firePair p ka c sv).2 ≠ .done := by
+            intro p ka c sv; cases p <;> cases ka <;> cases c <;> cases sv <;> decide
+          exact this _ _ _ _ hy
+        simp only [H11M.fire]
+        exact one _ (one _ (one _ (one _ (one _ (one _ hx)))))
+      exact hf _ (by simpa using hsv') hd
+
+/-- **HTTP/1: an application that ends after the response start but before its end closes the connection**:
+    h11's writer is in SEND_BODY (not DONE), so `_maybe_recycle` emits `Closed` and never restarts the cycle —
+    the client sees the response cut short of its declared length / final chunk -/
+theorem h1_crash_mid_response_closes (st : St) (hs : st.lib.server = .sendBody) :
+    Out.upClosed ∈ (maybeRecycle st).2 ∧ Out.startNextCycle true ∉ (maybeRecycle st).2 := by
+  have h := HC.Props.C06.reuse_iff st
+  have hn : ¬ (st.terminated = false ∧ st.lib.server = .done ∧ st.lib.client = .done ∧ st.wsMode = false) := by
+    intro ⟨_, h2, _⟩; rw [hs] at h2; cases h2
+  exact ⟨h.2.mpr hn, fun hc => hn (h.1.mp hc)⟩
+
+/-- the whole step at the protocol level: current HTTP stream in RESPONSE, application ends ⇒ `Closed`, no reuse,
+    and no `EndOfMessage` is handed to h11 -/
+theorem h1_crash_step (cfg : Cfg) (st : St) (i : Nat) (s : Http.S)
+    (hobj : st.objs[i]? = some (.http s)) (hst : s.st = .response) (hc : s.closed = false) (hsrv : st.lib.server = .sendBody) :
+    let r := appSendHttp cfg st i none
+    Out.upClosed ∈ r.2.1 ∧ (∀ ok, Out.libSend .eom ok ∉ r.2.1) ∧ r.2.2 = none := by
+  have happ : Http.appSend s none = (s, [.streamClosed], none) := crash_after_start s (Or.inl hst) hc
+  simp only [appSendHttp, hobj, happ, runHttpEvs, httpStreamSend]
+  have hlib : (st.setObj i (.http s)).lib.server = .sendBody := by simpa [St.setObj] using hsrv
+  obtain ⟨h1, h2⟩ := h1_crash_mid_response_closes (st.setObj i (.http s)) hlib
+  refine ⟨by simpa using h1, ?_, by simp⟩
+  intro ok hmem
+  simp only [List.append_nil] at hmem
+  exact HC.Props.C06.maybeRecycle_no_libSend _ _ _ hmem
+
+/-- **WebSocket**: ending in the handshake answers 500; ending while connected sends close 1011; both then close the stream -/
+theorem ws_crash_handshake (token : Bytes → Bytes) (ext : Option Bytes) (s : Ws.S) (hst : s.st = .handshake) (hc : s.closed = false) :
+    Ws.appSend token ext s none = (s, Ws.errorResponse 500 ++ [.access 500, .streamClosed], none) := by
+  simp [Ws.appSend, hst, hc]
+
+theorem ws_crash_connected (token : Bytes → Bytes) (ext : Option Bytes) (s : Ws.S) (hst : s.st = .connected) (hc : s.closed = false)
+    (hconn : s.conn = some .open) :
+    Ws.appSend token ext s none = ({ s with conn := some .localClosing }, [.data (.close 1011), .streamClosed], none) := by
+  simp [Ws.appSend, hst, hc, Ws.sendWs, hconn, Ws.connSend]
+
+/-- **HTTP/2 reset rule** (`H2Protocol._reset_abandoned_response`): a closing HTTP stream whose send buffer exists and was
+    never completed is reset; a completed one (END_STREAM sent, buffer gone) is not -/
+def h2ResetOnClose (bufferExists bufferComplete isHttpStream : Bool) : Bool :=
+  bufferExists && !bufferComplete && isHttpStream
+
+theorem h2_abandoned_reset (c : Bool) : h2ResetOnClose true c true = !c := by cases c <;> rfl
+theorem h2_completed_not_reset (h : Bool) : h2ResetOnClose false false h = false := by cases h <;> rfl
+
+example : (Http.appSend { method := "GET", version := "1.1", st := .response, response := some (200, false) } none).2.1 = [.streamClosed] := by decide
+
 end HC.Props.C05
